@@ -39,7 +39,7 @@ struct G<'a> {
     frag: bool,
 }
 
-const LET_TYS: [T; 11] = [T::I, T::I, T::I, T::B, T::B, T::O, T::E, T::R, T::R, T::L, T::S];
+const LET_TYS: [T; 16] = [T::I, T::I, T::I, T::B, T::B, T::O, T::E, T::R, T::R, T::L, T::S, T::K, T::K, T::P, T::G, T::H];
 
 impl G<'_> {
     fn fresh(&mut self, t: T, assignable: bool) -> usize {
@@ -72,16 +72,27 @@ impl G<'_> {
     /// A literal of `R` from the field expressions in the order in which they were generated
     /// (= the order in which they are written, so call-site keys ascend in source order); the
     /// fields they belong to are a random one of the six orders, independent of the declaration.
-    fn record(&mut self, es: Vec<E>) -> E {
-        let perm = *self.p.pick(&PERMS);
-        E::Record(false, perm.iter().copied().zip(es).collect())
+    fn record(&mut self, ty: T, es: Vec<E>) -> E {
+        let perms = perms_of(ty.nfields());
+        let perm = self.p.pick(&perms).clone();
+        E::Record(Rk { ty, anon: false }, perm.iter().copied().zip(es).collect())
+    }
+
+    /// a record type with three fields (`R` mostly) where the caller only wants "some record"
+    fn some_record_ty(&mut self) -> T {
+        match self.p.below(8) {
+            0 => T::P,
+            1 => T::G,
+            2 => T::H,
+            _ => T::R,
+        }
     }
 
     /// Where the context fixes the type (annotated `let`, assignment to a variable of type `R`)
     /// or the literal may keep its own anonymous type (`{ … }.f`), write it without the name.
     fn maybe_anon(&mut self, e: E) -> E {
         match e {
-            E::Record(false, fs) if self.p.chance(1, 2) => E::Record(true, fs),
+            E::Record(rk, fs) if !rk.anon && self.p.chance(1, 2) => E::Record(Rk { ty: rk.ty, anon: true }, fs),
             other => other,
         }
     }
@@ -118,11 +129,16 @@ impl G<'_> {
                 1 => E::Ctor(1, vec![self.int_lit(), self.int_lit()]),
                 _ => E::Ctor(2, vec![]),
             },
-            T::R => {
-                let es = vec![self.int_lit(), self.int_lit(), self.int_lit()];
-                self.record(es)
+            T::R | T::P | T::G | T::H => {
+                let es = (0..t.nfields()).map(|_| self.int_lit()).collect();
+                self.record(t, es)
             }
             T::L => E::List((0..self.p.below(3)).map(|_| self.int_lit()).collect()),
+            // there is no literal of the host type: a call of its constructor function
+            T::K => {
+                let (k, v) = (self.k(), self.int_lit());
+                E::Host(H_TOK, vec![k, v])
+            }
             T::V => unreachable!(),
         }
     }
@@ -155,10 +171,19 @@ impl G<'_> {
                 let (k, v) = (self.k(), self.leaf(T::I));
                 E::Ctor(0, vec![E::Host(H_EMIT, vec![k, v])])
             }
-            T::R => {
+            T::R | T::G => {
                 let (k, v, w) = (self.k(), self.leaf(T::I), self.leaf(T::I));
                 let (k2, v2) = (self.k(), self.leaf(T::I));
-                self.record(vec![E::Host(H_EMIT, vec![k, v]), w, E::Host(H_EMIT, vec![k2, v2])])
+                self.record(t, vec![E::Host(H_EMIT, vec![k, v]), w, E::Host(H_EMIT, vec![k2, v2])])
+            }
+            T::P | T::H => {
+                let (k, v) = (self.k(), self.leaf(T::I));
+                let (k2, v2) = (self.k(), self.leaf(T::I));
+                self.record(t, vec![E::Host(H_EMIT, vec![k, v]), E::Host(H_EMIT, vec![k2, v2])])
+            }
+            T::K => {
+                let (k, v) = (self.k(), self.leaf(T::I));
+                E::Host(H_TOK, vec![k, v])
             }
             T::V => unreachable!(),
         }
@@ -212,8 +237,9 @@ impl G<'_> {
                 }
                 37..=48 => {
                     let mut r = self.expr(T::I, d1);
-                    // (a field of an anonymous literal with a type of its own is as open as the literal in it)
-                    let own_type = matches!(&r, E::Field(rec, _) if matches!(**rec, E::Record(true, _)));
+                    // (a field of an anonymous literal with a type of its own, or of a literal of a generic
+                    // record, is as open as the literal in it)
+                    let own_type = matches!(&r, E::Field(rec, _) if has_open_literal(rec));
                     if own_type || !matches!(r, E::Host(..) | E::Call(..) | E::Field(..)) && !matches!(r, E::Var(x) if self.annotated[x]) {
                         // a literal (or a block ending in one) has type `{integer}`, which has no methods:
                         // give the receiver a definite type
@@ -236,10 +262,17 @@ impl G<'_> {
                     }
                     E::Try(Box::new(o))
                 }
-                77..=90 => {
-                    let r = self.expr(T::R, d1);
-                    let r = self.maybe_anon(r);
-                    E::Field(Box::new(r), self.p.below(FIELDS.len() as u64) as usize)
+                77..=88 => {
+                    let rt = self.some_record_ty();
+                    let r = self.expr(rt, d1);
+                    // (an anonymous literal with a type of its own cannot be generic)
+                    let r = if matches!(rt, T::G | T::H) { r } else { self.maybe_anon(r) };
+                    E::Field(Box::new(r), self.p.below(rt.nfields() as u64) as usize)
+                }
+                89..=92 => {
+                    // a method of the host type
+                    let (r, k) = (self.expr(T::K, d1), self.k());
+                    E::Host(H_PEEK, vec![r, k])
                 }
                 _ => self.eleaf(T::I),
             },
@@ -266,7 +299,13 @@ impl G<'_> {
                     let (l, r) = (self.expr(T::B, d1), self.expr(T::B, d1));
                     E::Or(Box::new(l), Box::new(r))
                 }
-                86..=92 => E::Not(Box::new(self.expr(T::B, d1))),
+                86..=90 => E::Not(Box::new(self.expr(T::B, d1))),
+                91..=95 => {
+                    // `==` / `!=` on the host type: the compiler calls the type's equality
+                    let op = *self.p.pick(&[Op::Eq, Op::Ne]);
+                    let (l, r) = (self.expr(T::K, d1), self.expr(T::K, d1));
+                    E::Bin(op, Box::new(l), Box::new(r))
+                }
                 _ => self.eleaf(T::B),
             },
             T::U => self.unit_expr(d1),
@@ -275,10 +314,12 @@ impl G<'_> {
                     let n = 1 + self.p.below(4);
                     let mut parts = vec![];
                     for _ in 0..n {
-                        match self.p.below(5) {
+                        match self.p.below(7) {
                             0 => parts.push(Part::Str((*self.p.pick(&["a", "-", " b ", "é", "x=", ""])).to_string())),
                             1 => parts.push(Part::Expr(self.expr(T::B, d1))),
                             2 => parts.push(Part::Expr(self.expr(T::S, d1))),
+                            // a part of the host type: the compiler inserts a call of its `to_string`
+                            3 | 4 => parts.push(Part::Expr(self.expr(T::K, d1))),
                             _ => parts.push(Part::Expr(self.expr(T::I, d1))),
                         }
                     }
@@ -293,10 +334,11 @@ impl G<'_> {
                     }
                     E::FStr(out)
                 }
-                60..=74 => {
+                60..=72 => {
                     let (l, r) = (self.expr(T::S, d1), self.expr(T::S, d1));
                     E::Concat(Box::new(l), Box::new(r))
                 }
+                73..=78 => E::Host(H_TO_STRING, vec![self.expr(T::K, d1)]),
                 _ => {
                     let (k, v) = (self.k(), self.expr(T::S, d1));
                     E::Host(H_EMIT_S, vec![k, v])
@@ -318,9 +360,13 @@ impl G<'_> {
                 }
                 _ => E::Ctor(2, vec![]),
             },
-            T::R => {
-                let (a, b, c) = (self.expr(T::I, d1), self.expr(T::I, d1), self.expr(T::I, d1));
-                self.record(vec![a, b, c])
+            T::R | T::P | T::G | T::H => {
+                let es = (0..t.nfields()).map(|_| self.expr(T::I, d1)).collect();
+                self.record(t, es)
+            }
+            T::K => {
+                let (k, v) = (self.k(), self.expr(T::I, d1));
+                E::Host(H_TOK, vec![k, v])
             }
             T::L => match self.p.below(10) {
                 0..=6 => {
@@ -340,10 +386,10 @@ impl G<'_> {
         let asg = self.assignable();
         match self.p.below(100) {
             // the target is a field of a variable of type `R` (`x.f = e`, `x.f op= e`)
-            24..=29 | 48..=54 if asg.iter().any(|x| self.var_tys[*x] == T::R) => {
-                let recs: Vec<usize> = asg.iter().copied().filter(|x| self.var_tys[*x] == T::R).collect();
+            24..=29 | 48..=54 if asg.iter().any(|x| self.var_tys[*x].is_record()) => {
+                let recs: Vec<usize> = asg.iter().copied().filter(|x| self.var_tys[*x].is_record()).collect();
                 let x = *self.p.pick(&recs);
-                let i = self.p.below(FIELDS.len() as u64) as usize;
+                let i = self.p.below(self.var_tys[x].nfields() as u64) as usize;
                 if self.p.chance(1, 2) {
                     let v = self.expr(T::I, d);
                     E::AssignF(x, i, Box::new(v))
@@ -515,6 +561,12 @@ impl G<'_> {
         self.scope.truncate(mark);
         Blk { stmts, last }
     }
+}
+
+/// Does the expression contain a record literal whose field types are not fixed by a declaration
+/// (anonymous, or of a generic record)? A field of it may still be `{integer}`.
+fn has_open_literal(e: &E) -> bool {
+    matches!(e, E::Record(rk, _) if rk.anon || matches!(rk.ty, T::G | T::H)) || children(e).into_iter().any(has_open_literal)
 }
 
 /// Is the expression an `Option.None` whose payload type nothing anchors?
